@@ -669,7 +669,7 @@ func init() {
 	register("C12", func(r *Result, rng *rand.Rand, tier string) {
 		n := 2500
 		if tier == "thorough" {
-			n = 80000
+			n = 55000
 		} else if tier == "search" {
 			n = 4000
 		}
